@@ -569,6 +569,34 @@ def m_C13(v):
     received = {}
     lp = v.deploy["lp"]
     for i, k in enumerate(v.kind):
+        # an accepted schedule satisfies the stated conditions (independent of the model)
+        if v.accepted(i) and v.call[i]["ep"] == "setSchedule2":
+            a = [int(x) for x in v.call[i]["args"]]
+            ms = [(a[1 + 2 * j], a[2 + 2 * j]) for j in range(a[0])] if a else []
+            now = v.call[i]["round"]
+            bad = []
+            if not ms or len(ms) > 60:
+                bad.append(f"{len(ms)} milestones")
+            if sum(p for _, p in ms) != 10000:
+                bad.append(f"percentages add up to {sum(p for _, p in ms)}")
+            if any(p > 10000 for _, p in ms):
+                bad.append("a percentage above 100%")
+            if any(r < now for r, _ in ms):
+                bad.append("a release round in the past")
+            if any(ms[j + 1][0] < ms[j][0] for j in range(len(ms) - 1)):
+                bad.append("decreasing release rounds")
+            if any(r > now + 26280000 for r, _ in ms):
+                bad.append("a release round more than 5 years ahead")
+            if bad:
+                out.append((i, f"C13 schedule accepted although: {', '.join(bad)}"))
+        if v.accepted(i) and v.call[i]["ep"] in ("setSchedule1", "setSchedule2"):
+            pd = v.prev_dump(i)
+            if pd and stage_of(pd[0], v.call[i]["round"]) != 0 and pd[0].get("sched", "none") != "none":
+                out.append((i, f"C13 existing schedule altered at round {v.call[i]['round']}, after confirmation started"))
+        if v.accepted(i) and v.call[i]["ep"] == "setSchedule1":
+            st, ini, times, pct, per = [int(x) for x in v.call[i]["args"]]
+            if ini + times * pct != 10000:
+                out.append((i, f"C13 v1 schedule accepted with {ini} + {times} x {pct} != 100%"))
         if v.committed(i) and v.call[i]["ep"] == "claim":
             c = v.call[i]["caller"]
             received[c] = received.get(c, 0) + xf_to(v.R[i], c, lp)
